@@ -83,6 +83,20 @@ def _pair_compare(case, obs, model):
     return len(a) == len(b) and all(_chain_compare(case, x, y) for x, y in zip(a, b))
 
 
+def _condense_compare(case, obs, model):
+    a = obs.split(' ## ')
+    b = model.split(' ## ')
+    if a[0] != b[0]:
+        return False
+    if len(a) == 1 or len(b) == 1:
+        return len(a) == len(b)
+    return _chain_compare(case, a[1], b[1])
+
+
+def _nt_condense(case, obs):
+    return obs.startswith('CONDENSE ok') and ' ## B RES' in obs
+
+
 def _nt_pair(case, obs):
     return obs.startswith('BIND ok')
 
@@ -282,7 +296,7 @@ PROPS = {
     ),
     'C11': dict(
         monitor=True,
-        streams=[dict(name='history', n_quick=2500, n_thorough=60000, nontrivial=_nt_pair, compare=_pair_compare, wf_check=False, race=True),
+        streams=[dict(name='history', n_quick=1200, n_thorough=60000, nontrivial=_nt_pair, compare=_pair_compare, wf_check=False, race=True),
                  chain_stream(2000, 50000, _nt_bound, name='regroup')],
         rule='stream history (run under the race detector): a chain without Memoize/Singleton (their process-wide caches are history by design, C09) is built once, '
              'one provider possibly standing behind a GenerateFromInjectionChain generator; two collections are derived from it (Sequence, Append); then a seeded '
@@ -410,6 +424,30 @@ PROPS = {
         design_ref='DESIGN.md section 8 (C18)',
         assumptions=['execution order of no-op injectors is the observable for the edited order',
                      'a directive whose target block contains the edited provider is an error (fixed in /repo, see known-findings.txt)'],
+    ),
+    'C19': dict(
+        monitor=True,
+        streams=[dict(name='condense', n_quick=6000, n_thorough=200000, nontrivial=_nt_condense, compare=_condense_compare, wf_check=False)],
+        rule='stream condense: ordinary chains (wrapper-rich and fallible-rich variants, NonFinal tails, Loose interface inputs, static-eligible members, '
+             'clusters, no init, *Debugging and Unused parameters removed) whose provider list is condensed with treatErrorAsTerminal false/true. Observed: '
+             'DownFlows/UpFlows of the raw collection (public API), whether Condense succeeds, the condensed provider\'s inputs and outputs (its own '
+             'DownFlows/UpFlows), (A) the same description bound directly with an invoke function taking those inputs and returning those outputs, invoked '
+             'twice, (B) the outer chain [condensed provider, final function handing its parameters back up] bound with the same invoke signature, invoked '
+             'twice with the same arguments. Compared with the model: raw flows, success of Condense, signature, and the whole observation of A. Monitors on '
+             'the implementation: the reported inputs/outputs satisfy the statement itself (extracted Coq predicate mon_C19_sig: sufficient, nothing but those, outputs = returned '
+             'types, evaluated declaratively rather than by running netFlows); B returns what A returns (or, with treatErrorAsTerminal and a non-nil error, zero values and that error, the final function '
+             'not called), the providers inside are called with the same arguments and results in the same order, and the downstream consumer receives exactly '
+             'A\'s results. Non-trivial: Condense succeeds and B binds',
+        level_text='Theorems C19_down_inputs_sufficient_partial (netFlows: every parameter of every provider, resolved against the providers listed before it, is produced '
+                   'by one of them or reported as an unresolved input), C19_down_inputs_necessary (nothing else is reported: each reported input is what some parameter resolves to while no '
+                   'provider before that one puts it out), C19_up_flows_complete and C19_produced_is_real (every returned type is reported as produced when '
+                   'no received type is unresolved; nothing else is), for all provider lists; C19_condensed_value / C19_condensed_terminal (reference semantics of the '
+                   'condensed node under both error treatments: downstream sees what calling the bound sub-chain returns; a non-nil error stops the outer chain); Coq, '
+                   'no axioms. The model of flows.go / the signature part of condense.go is tied to /repo by the condense stream; that a chain supplying the reported '
+                   'inputs binds (selection) and that the embedded provider equals the direct call are validated differentially (A against the model, B against A).',
+        level_note=CHAIN_NOTE + ' Defects D17, D18 (flows), D27, D28 (Condense) were repaired in /repo. The *Debugging pass-through of Condense (bypassDebug) is not exercised.',
+        design_ref='DESIGN.md section 8 (C19)',
+        assumptions=['sufficiency proved at the level of types; bindability and embedding equivalence validated differentially'],
     ),
 }
 
